@@ -26,13 +26,13 @@ def behaviours(tier, ck, focus="any"):
     vecs = dx.parse_prints(open(outp2).read(), "LIFE")
     if len(vecs) < num // 2:
         raise dx.ToolError("MC_Life simulation printed %d behaviours (expected about %d): %s" % (len(vecs), num, outp2))
-    ck.cov["transitions"] += st2.get("generated", 0)
+    ck.cov["transitions"] = ck.cov.get("transitions", 0) + st2.get("generated", 0)
     ck.notes["life_model"] = {"module": "MC_Life", "bfs_states": st.get("distinct"), "simulated_behaviours": len(vecs),
                               "simulated_states": st2.get("generated")}
     return vecs
 
 
-def life_stage(ck, tier, props, transform=None, tag="life", coherent_only=False, focus="any"):
+def life_stage(ck, tier, props, transform=None, tag="life", coherent_only=False, focus="any", limit=None):
     """props: the properties whose calls are judged in this run (others are still executed: they move the state)"""
     vecs = behaviours(tier, ck, "any")
     if vecs is None:
@@ -42,6 +42,8 @@ def life_stage(ck, tier, props, transform=None, tag="life", coherent_only=False,
     # keep the behaviours that contain a call of the wanted properties
     want = set(props)
     vecs = [v for v in vecs if any(PROP_OF.get(x["act"]) in want for x in v["hist"]) and (not coherent_only or v["L"]["mode"] == "coherent")]
+    if limit:
+        vecs = vecs[:limit]
     entries = ["attr", "derive", "split"]
     mods, meta = [], []
     for i, v in enumerate(vecs):
